@@ -86,7 +86,8 @@ struct Explorer {
     return ok;
   }
   void run() {
-    const T A[3] = {(T)1.5, -(T)0, (T)-2.25e10};
+    // values that use the full precision of T (not representable in a narrower type), a negative zero, a large magnitude
+    const T A[3] = {std::nextafter((T)1.5, (T)2), -(T)0, (T)(-(1.0L / 3) * 0x1p40L)};
     const int maxdepth = N <= 3 ? 8 : (thorough ? 4 : 3);
     struct Node {
       Ref r;
@@ -95,7 +96,7 @@ struct Explorer {
     std::unordered_set<uint64_t> seen;
     std::deque<Node> frontier;
     Ref init;
-    for (int i = 0; i < N; i++) init[i] = (T)(i + 1) * (T)0.25;
+    for (int i = 0; i < N; i++) init[i] = (T)((i + 1) * 0.1L);
     frontier.push_back({init, 0});
     seen.insert(key(init));
     states = 1;
